@@ -53,7 +53,7 @@ TABLE = {
            ("RejectProofs.v", ["find_entity_first", "ok_refs_defined_first"], "Local Notation token := Tokenizer.token.")]),
  "C08": dict(
    intro="C08 -- ill-formed documents are rejected.  (1) the three character classes are the Fifth Edition\n   productions for every scalar value (tables regenerated from the source on every run);\n   (2) local rejection theorems, 'accepted implies constraint': comment bodies, ']]>' in text, misplaced\n   declaration, '<' in attribute values, every consumed character is a Char, end tags match the open\n   element and cannot close an element opened outside the current entity, reserved prefixes and URIs,\n   entity references are declared (first declaration wins), and the document-level token shape: only\n   comments / PIs (and entity declarations) before the root, at most one root element, only\n   comments / PIs after it.  (3) Soundness against the grammar on the byte fragment that Spec/Cst.v covers\n   (in_fragment, Proofs/CstSound.v: printable ASCII / TAB / LF, no '&', no ':', no '<!D' '<![' '<?xml' 'xmlns';\n   attrs_raw: no attribute value was normalised): every ACCEPTED input is the rendering of a well-formed abstract\n   document (parse_sound_fragment) -- the parser accepts nothing outside the grammar there -- and its tree is that\n   document's meaning (parse_sound_and_complete).  (4) Truncation: for EVERY accepted document (DOCTYPE and entity expansion included) and\n   every cut (on a character boundary) before the end of its root element, the prefix is rejected\n   (truncation_rejected; root_element_end d and firstn_N are defined in Proofs/TruncMain.v).  (5) Soundness over\n   Unicode (in_fragment_u, Proofs/CstSoundU.v: valid UTF-8, no CR, '&', ':', '<!D', '<![', '<?xml', 'xmlns', no leading\n   BOM): every accepted input is the rendering of a well-formed document of Spec/CstU.v (parse_sound_fragment_u).\n   (6) Soundness with references and CDATA (in_fragment_t, Proofs/CstSoundT.v: printable ASCII / TAB / LF, '&' and\n   '<![' allowed, numeric references denote scalar values -- the documented U+FFFD leniency excluded): every accepted input\n   is the rendering of a well-formed document of Spec/CstText.v, with NO condition on the result (parse_sound_fragment_t).\n   (7) Namespace constraints at document level (Spec/CstNs.v): a syntactically well-formed document that violates one of\n   N1-N7 (undeclared prefix, duplicate declaration, duplicate attribute by expanded name, misuse of xml / xmlns prefixes\n   and URIs) is rejected with one of the namespace error variants (ns_violation_rejected).  (8) Soundness WITH NAMESPACES\n   (in_fragment_n, Proofs/CstSoundN.v: valid UTF-8, qualified names and xmlns declarations allowed, references and CDATA\n   allowed; no CR, DOCTYPE, XML declaration, BOM; numeric references scalar; no leading-colon names and no colon in PI\n   targets -- two leniencies, each with its Example): every accepted input is the rendering of a well-formed document of\n   Spec/CstFull.v stage S2, hence satisfies N1-N7 on normalised URIs; the resource bounds of the completeness theorem\n   follow from acceptance (parse_sound_fragment_n_res), so the parsed tree IS the document's meaning\n   (parse_sound_and_complete_n).  (9) Soundness WITH THE PROLOG AND ENTITIES (in_fragment_p, Proofs/CstSoundP.v: BOM, XML\n   declaration, DOCTYPE with every kind of declaration, character-data general entities declared AND used; conditions P1-P8\n   on the bytes, each leniency with its Example): every accepted input is the rendering of a well-formed document of\n   Spec/CstFullS5.v (parse_sound_fragment_p) -- this covers misplaced / repeated XML declarations, undefined references,\n   recursion, '<' reaching an attribute value through an entity, and the DTD syntax.",
-   imports=["From RX.Spec Require Chars.", "From RX.Spec Require Cst.", "From RX.Proofs Require Import CharTablesProofs RejectProofs WfParseTok WfParseChars WfParse CstSound CstSoundDoc CstSoundCor TruncMain TruncDtdMain CstSoundU CstSoundUDoc CstSoundUCor CstSoundT CstSoundTDoc CstSoundTCor NsRejDefs NsRejBuild NsRejMain CstNsView CstFullMain CstSoundN CstSoundNDoc CstSoundNCor.", "From RX.Spec Require CstU CstText CstNs CstFull CstFullS5.", "From RX.Proofs Require CstSoundP CstSoundPRDoc CstSoundPRCor.", "From RX.Spec Require CstFullS4 CstFullS6.", "From RX.Proofs Require KnownFindingsMore KnownFindingsD21 CstSound6P CstSound6 CstSound6U CstSound6uCor CstSound6a CstSound6aFinal CstSound6bFinal CstSound6rCor CstSound6c CstSound6cFinal CstSound6dFinal CstSound6eCor CstFullS6Main CstFullRejSem CstFullRejTrace CstFullRejDoc CstFullRejMain CstFullNsRejMain."],
+   imports=["From RX.Spec Require Chars.", "From RX.Spec Require Cst.", "From RX.Proofs Require Import CharTablesProofs RejectProofs WfParseTok WfParseChars WfParse CstSound CstSoundDoc CstSoundCor TruncMain TruncDtdMain CstSoundU CstSoundUDoc CstSoundUCor CstSoundT CstSoundTDoc CstSoundTCor NsRejDefs NsRejBuild NsRejMain CstNsView CstFullMain CstSoundN CstSoundNDoc CstSoundNCor.", "From RX.Spec Require CstU CstText CstNs CstFull CstFullS5.", "From RX.Proofs Require CstSoundP CstSoundPRDoc CstSoundPRCor.", "From RX.Spec Require CstFullS4 CstFullS6.", "From RX.Proofs Require KnownFindingsMore KnownFindingsD21 CstSound6P CstSound6 CstSound6U CstSound6uCor CstSound6a CstSound6aFinal CstSound6bFinal CstSound6rCor CstSound6c CstSound6cFinal CstSound6dFinal CstSound6eCor CstFullS6Main CstSound7 CstSound7Final CstSound8 CstSound8Final CstFullRejSem CstFullRejTrace CstFullRejDoc CstFullRejMain CstFullNsRejMain.", "From RX.Spec Require CstFullS11.", "From RX.Proofs Require CstFullS11Main CstFullRejS11Sem CstFullRejS11Doc CstFullRejS11Main CstFullRejS11NsMain NsRejDefs NsRejBuild."],
    groups=[("CharTablesProofs.v", ["char_tables_conform", "byte_tables_conform", "byte_space_conform", "byte_char_agree"]),
            ("RejectProofs.v", ["ok_comment_body", "ok_text_no_cdata_end", "ok_pi_not_declaration", "ok_no_lt_in_attr", "skip_chars_only_chars",
                                "skip_chars_only_chars_text", "consume_chars_only_chars", "ok_tags_balanced", "ok_reserved_names",
@@ -72,6 +72,8 @@ TABLE = {
            ("CstSound6uCor.v", ["parse_sound_fragment_6u", "parse_sound_and_complete_6u"], "Import RX.Spec.CstFull. Import RX.Spec.CstFullS5. Import RX.Spec.CstFullS6. Import RX.Proofs.CstNsView. Import RX.Proofs.CstSoundP. Import RX.Proofs.CstSound6. Import RX.Proofs.CstSound6U. Import RX.Proofs.CstSound6uCor."),
            ("CstSound6bFinal.v", ["parse_sound_fragment_6a"], "Import RX.Spec.CstFull. Import RX.Spec.CstFullS5. Import RX.Spec.CstFullS6. Import RX.Proofs.CstSoundP. Import RX.Proofs.CstSound6. Import RX.Proofs.CstSound6U. Import RX.Proofs.CstSound6a. Import RX.Proofs.CstSound6bFinal."),
            ("CstSound6rCor.v", ["parse_sound_fragment_6a_res", "parse_sound_and_complete_6a", "parse_sound_and_complete_6a_nl", "parse_view_of_witness"], "Import RX.Spec.CstFull. Import RX.Spec.CstFullS5. Import RX.Spec.CstFullS6. Import RX.Proofs.CstNsView. Import RX.Proofs.CstSoundP. Import RX.Proofs.CstSound6. Import RX.Proofs.CstSound6U. Import RX.Proofs.CstSound6a. Import RX.Proofs.CstSound6rCor."),
+           ("CstSound7Final.v", ["parse_sound_fragment_7"], "Import RX.Spec.CstFull. Import RX.Spec.CstFullS5. Import RX.Spec.CstFullS6. Import RX.Spec.CstFullS7. Import RX.Spec.CstFullS8. Import RX.Proofs.CstSoundP. Import RX.Proofs.CstSound6. Import RX.Proofs.CstSound6U. Import RX.Proofs.CstSound7. Import RX.Proofs.CstSound7Final."),
+           ("CstSound8Final.v", ["parse_sound_fragment_8"], "Import RX.Spec.CstFull. Import RX.Spec.CstFullS5. Import RX.Spec.CstFullS6. Import RX.Spec.CstFullS7. Import RX.Spec.CstFullS8. Import RX.Proofs.CstSoundP. Import RX.Proofs.CstSound6. Import RX.Proofs.CstSound6U. Import RX.Proofs.CstSound7. Import RX.Proofs.CstSound8. Import RX.Proofs.CstSound8Final."),
            ("CstSound6dFinal.v", ["parse_sound_fragment_6"], "Import RX.Spec.CstFull. Import RX.Spec.CstFullS5. Import RX.Spec.CstFullS6. Import RX.Proofs.CstNsView. Import RX.Proofs.CstSoundP. Import RX.Proofs.CstSound6. Import RX.Proofs.CstSound6U. Import RX.Proofs.CstSound6dFinal."),
            ("CstSound6eCor.v", ["parse_sound_fragment_6_res", "parse_sound_and_complete_6", "parse_sound_and_complete_6_nl"], "Import RX.Spec.CstFull. Import RX.Spec.CstFullS5. Import RX.Spec.CstFullS6. Import RX.Proofs.CstNsView. Import RX.Proofs.CstSoundP. Import RX.Proofs.CstSound6. Import RX.Proofs.CstSound6U. Import RX.Proofs.CstSound6eCor."),
            ("CstSound6cFinal.v", ["parse_sound_fragment_6c"], "Import RX.Spec.CstFull. Import RX.Spec.CstFullS5. Import RX.Spec.CstFullS6. Import RX.Proofs.CstSoundP. Import RX.Proofs.CstSound6. Import RX.Proofs.CstSound6U. Import RX.Proofs.CstSound6a. Import RX.Proofs.CstSound6c. Import RX.Proofs.CstSound6cFinal."),
@@ -79,6 +81,7 @@ TABLE = {
            ("KnownFindingsMore.v", ["d27_refuted", "d28_refuted", "d29_refuted"], "Import RX.Proofs.CstNsView. Import RX.Proofs.KnownFindingsMore.", "CHECK"),
            ("KnownFindingsD21.v", ["d21_refuted", "d21_wf_for_spec", "d21_outside_class", "d21_outside_class_variant"], "Import RX.Spec.CstNs. Import RX.Proofs.NsRejDefs. Import RX.Proofs.NsRejBuild. Import RX.Proofs.NsRejMain. Import RX.Proofs.KnownFindingsD21."),
            ("NsRejMain.v", ["ns_violation_rejected"], "Import CstNs."),
+           ("CstFullRejS11NsMain.v", ["ns_violation_rejected_full_s11"], "Import RX.Spec.CstFull. Import RX.Spec.CstFullS4. Import RX.Spec.CstFullS6. Import RX.Spec.CstFullS11. Import RX.Proofs.CstNsView. Import RX.Proofs.CstFullS11Main. Import RX.Proofs.NsRejDefs. Import RX.Proofs.NsRejBuild. Import RX.Proofs.CstFullRejSem. Import RX.Proofs.CstFullRejS11Sem. Import RX.Proofs.CstFullRejTrace. Import RX.Proofs.CstFullRejS11Doc. Import RX.Proofs.CstFullRejMain. Import RX.Proofs.CstFullRejS11Main. Import RX.Proofs.CstFullNsRejMain. Import RX.Proofs.CstFullRejS11NsMain."),
            ("CstFullNsRejMain.v", ["ns_violation_rejected_full_s6"], "Import RX.Spec.CstFull. Import RX.Spec.CstFullS4. Import RX.Spec.CstFullS6. Import RX.Proofs.CstNsView. Import RX.Proofs.CstFullS6Main. Import RX.Proofs.NsRejDefs. Import RX.Proofs.NsRejBuild. Import RX.Proofs.CstFullRejSem. Import RX.Proofs.CstFullRejTrace. Import RX.Proofs.CstFullRejDoc. Import RX.Proofs.CstFullRejMain. Import RX.Proofs.CstFullNsRejMain.")]),
  "C03": dict(
    intro="C03 -- elements, comments and PIs mirror the document's logical structure.  Lexer post-conditions\n   (with a token recorder as callback): a comment token's text is exactly the source between '<!--' and\n   '-->'; a PI's target and value are the source strings (value without leading whitespace, None when\n   empty); CDATA / text tokens are their source slices; the DOCTYPE and the prolog / epilog deliver only\n   comments, PIs (and entity declarations); a start tag delivers ElementStart, attributes, one ElementEnd.\n   The XML declaration has no callback at all.  Document-level token shape: Proofs/RejectProofs.v.\n   Completeness on the fragment of Spec/Cst.v (ASCII names and content, no DOCTYPE, references, namespaces, CR): every\n   rendering of a well-formed abstract document -- with any layout choices: whitespace in tags, quote style,\n   empty-element syntax, prolog / epilog comments and PIs -- parses to exactly its meaning (view = sem:\n   kinds, names, attributes in order with values, comment text, PI target / value, text, children counts), so two\n   renderings with the same meaning give the same tree (layout_insensitive).  view is defined in Proofs/CstMain.v.\n   The same over Unicode (Spec/CstU.v: names, values, text, comments, PIs are lists of scalar values in the 5th-edition\n   Name / Char classes, rendered in UTF-8): parse_render_sem_u, layout_insensitive_u, render_valid_utf8.\n   The largest fragment (Spec/CstFull.v stage S3 = Unicode + namespaces + pieces + character-data entities, pinned under\n   C06) extended by the whole PROLOG (Spec/CstFullS5.v): byte order mark, XML declaration, DOCTYPE with external id and an\n   internal subset holding every kind of declaration (general / parameter / external / unparsed entities, ELEMENT /\n   ATTLIST / NOTATION, comments and PIs -- which become nodes under the Root), CR in markup whitespace:\n   parse_render_sem_full_s5 and prolog_insensitive_full_s5 (same meaning => same tree, whatever the prolog).\n   THE CAPSTONE (Spec/CstFullS6.v): S4's entities (character data or markup with qualified names, resolved at the place\n   of reference) inside S5's prolog, CR in markup whitespace everywhere -- ONE statement for the whole supported subset:\n   parse_render_sem_full_s6; same meaning => same tree whatever the distribution over entities, the prolog and the layout\n   (hoist_prolog_insensitive_full_s6); S4 and S5 embed with the same rendering and meaning (s4_in_s6, s5_in_s6), hence\n   so do S1..S3.  What S6 still excludes is listed in the spec files: CR inside comment / PI bodies (admitted by S7), '%' and character references to TAB / LF / CR / '&' / '<' inside entity literals, colons\n   in DOCTYPE / entity names, the CR LF proviso and D15.",
@@ -114,7 +117,7 @@ TABLE = {
                                  "resolve_attributes_unique_eqb", "resolve_attributes_namespace"])]),
  "C06": dict(
    intro="C06 -- names and in-scope namespaces: the element's namespace range denotes\n   Spec.scope_of (own declarations, then inherited bindings not re-declared); names resolve to the\n   first binding of their prefix; duplicate declarations are detected; the 2^16 limit.\n   (scopes_refine carries the hypothesis that the parent's scope has unique prefixes, which\n   scope_prefixes_unique re-establishes.)  Whole documents on the fragment of Spec/CstNs.v (the Cst fragment with\n   qualified names and xmlns / xmlns:p declarations interleaved with attributes; empty URIs, xml:lang, p:xmlns\n   attributes included): every rendering of a namespace-well-formed abstract document parses to exactly its\n   meaning, where the tag's namespace, each attribute's namespace and each element's in-scope list\n   (Node::namespaces()) are computed ONLY with Spec/Scope.v from the WRITTEN declarations and the parent's scope\n   (parse_render_sem_ns: view = Some (sem c)).  Two resource hypotheses, stated with spec functions: at most 65535\n   distinct declared bindings (the documented limit) and a namespace table within u32::MAX entries.\n   The same over Unicode (Spec/CstFull.v, stage S1: prefixes, local names, URIs, values and content are scalar values of\n   the 5th-edition classes rendered in UTF-8): parse_render_sem_full_s1; stage S2 adds CstText's pieces everywhere:\n   attribute values, text runs and the VALUES OF NAMESPACE DECLARATIONS are lists of literals (incl. CR), character and\n   predefined references (CDATA in text) -- a URI supplied through references (xmlns:p='&#117;rn:x') declares the\n   normalised URI, and the reserved-name rules are decided on it: parse_render_sem_full_s2, spelling_insensitive_full_s2;\n   stage S3 adds an internal DTD subset with character-data entities (Unicode names and values, nested, first declaration\n   wins) referenced from content, attribute values and NAMESPACE DECLARATION VALUES (a URI supplied through an entity):\n   parse_render_sem_full_s3, hoist_insensitive_full_s3.  S1 c S2 c S3; this is the single statement that covers\n   C03..C07 together on the largest fragment.  Rejection half (NsRejMain.v, on Spec/CstNs.v): for syntactically\n   well-formed documents parse succeeds IFF the namespace conditions N1-N7 hold (ns_decide), and the first violated\n   rule (first_violation, NsRejDefs.v) determines the error variant and payload (ns_violation_variant).",
-   imports=["From RX.Spec Require Scope.", "From RX.Spec Require Cst CstNs CstU CstFull.", "From RX.Proofs Require Import ScopeProofs ScopeParse CstNsView CstNsMain CstFullMain CstFullS1 CstFullS2 CstFullS3 NsRejDefs NsRejBuild NsRejMain.", "From RX.Spec Require CstFullS4 CstFullS6.", "From RX.Proofs Require CstFullS4Main CstFullS6Main CstFullRejSem CstFullRejTrace CstFullRejDoc CstFullRejMain CstFullNsRejMain."],
+   imports=["From RX.Spec Require Scope.", "From RX.Spec Require Cst CstNs CstU CstFull.", "From RX.Proofs Require Import ScopeProofs ScopeParse CstNsView CstNsMain CstFullMain CstFullS1 CstFullS2 CstFullS3 NsRejDefs NsRejBuild NsRejMain.", "From RX.Spec Require CstFullS4 CstFullS6.", "From RX.Proofs Require CstFullS4Main CstFullS6Main CstFullRejSem CstFullRejTrace CstFullRejDoc CstFullRejMain CstFullNsRejMain.", "From RX.Spec Require CstFullS11.", "From RX.Proofs Require CstFullS11Main CstFullRejS11Sem CstFullRejS11Doc CstFullRejS11Main CstFullRejS11NsMain NsRejDefs NsRejBuild."],
    groups=[("ScopeParse.v", ["parse_scopes_ok", "parse_names_ok"]),
            ("ScopeProofs.v", ["scopes_refine", "scope_prefixes_unique", "names_resolve", "unknown_prefix_rejected", "unknown_prefix_never_ok",
                               "duplicate_declaration_rejected", "push_ns_appends", "push_ns_limit", "ns_values_limit_is"]),
@@ -124,13 +127,15 @@ TABLE = {
            ("CstFullS4Main.v", ["parse_render_sem_full_s4"], "Import RX.Spec.CstFull. Import RX.Spec.CstFullS4. Import RX.Proofs.CstFullS4Main."),
            ("CstNsMain.v", ["parse_render_sem_ns", "layout_insensitive_ns"], "Import CstNs."),
            ("NsRejMain.v", ["ns_decide", "ns_violation_variant"], "Import CstNs."),
+           ("CstFullRejS11NsMain.v", ["decide_full_s11"], "Import RX.Spec.CstFull. Import RX.Spec.CstFullS4. Import RX.Spec.CstFullS6. Import RX.Spec.CstFullS11. Import RX.Proofs.CstNsView. Import RX.Proofs.CstFullS11Main. Import RX.Proofs.NsRejDefs. Import RX.Proofs.NsRejBuild. Import RX.Proofs.CstFullRejSem. Import RX.Proofs.CstFullRejS11Sem. Import RX.Proofs.CstFullRejTrace. Import RX.Proofs.CstFullRejS11Doc. Import RX.Proofs.CstFullRejMain. Import RX.Proofs.CstFullRejS11Main. Import RX.Proofs.CstFullNsRejMain. Import RX.Proofs.CstFullRejS11NsMain."),
            ("CstFullNsRejMain.v", ["ns_decide_full_s6_partial", "ns_violation_variant_full_s6", "decide_full_s6"], "Import RX.Spec.CstFull. Import RX.Spec.CstFullS4. Import RX.Spec.CstFullS6. Import RX.Proofs.CstNsView. Import RX.Proofs.CstFullS6Main. Import RX.Proofs.NsRejDefs. Import RX.Proofs.NsRejBuild. Import RX.Proofs.CstFullRejSem. Import RX.Proofs.CstFullRejTrace. Import RX.Proofs.CstFullRejDoc. Import RX.Proofs.CstFullRejMain. Import RX.Proofs.CstFullNsRejMain.")]),
  "C09": dict(
    intro="C09 -- entity expansion is bounded yet not over-restricted.  (1) the loop detector is sound and complete\n   w.r.t. the trace specification, with the documented numbers (10, 255) against constants regenerated from the\n   source; (2) the node budget over a whole parse: a successfully parsed document has at most\n   1 + len + 256 * len * amp nodes (hence <= 256 * (len + 1) * (amp + 1)), for every input and all options;\n   without a DOCTYPE at most len + 1 nodes; (3) the byte budget: the text of all Text nodes plus all attribute\n   values (text_len + value_len, BudgetBytesBuild.v) is at most len + 256 * len * amp bytes.  (5) Whole documents on the\n   fragment of Spec/CstEnt.v: for a document whose only possible defect is the expansion (wf_syntax, and ginline = Some:\n   no undeclared name, no markup reaching an attribute), the detector limits DECIDE the outcome -- within 10 / 255 it parses\n   to its inlined meaning, otherwise Err EntityReferenceLoop (limits_decide_ent) -- hence a reference cycle reachable\n   from the body (cyclic_doc, defined on the declaration graph with first declarations), a reference path of 11 or more\n   names, or more than 255 expansions below one top-level reference are each rejected with EntityReferenceLoop.",
-   imports=["From RX.Spec Require Import Detector.", "From RX.Proofs Require Import DetectorProofs OptionsParam OptionsBuild OptionsMain OptionsDtd BudgetStream BudgetTok BudgetBuild BudgetAcct BudgetMain BudgetNoEnt BudgetBytesBuild BudgetBytesTok BudgetBytesAcct BudgetBytesMain CycleStream CycleContent CycleAttr CycleEntered.", "From RX.Spec Require Cst CstText CstEnt.", "From RX.Proofs Require Import CstMain CstTextMain CstEntMain CstEntRejSem CstEntRejTrace CstEntRejMain.", "From RX.Spec Require CstFull CstFullS4 CstFullS6.", "From RX.Proofs Require CstNsView CstFullS6Main CstFullRejSem CstFullRejTrace CstFullRejDoc CstFullRejMain."],
+   imports=["From RX.Spec Require Import Detector.", "From RX.Proofs Require Import DetectorProofs OptionsParam OptionsBuild OptionsMain OptionsDtd BudgetStream BudgetTok BudgetBuild BudgetAcct BudgetMain BudgetNoEnt BudgetBytesBuild BudgetBytesTok BudgetBytesAcct BudgetBytesMain CycleStream CycleContent CycleAttr CycleEntered.", "From RX.Spec Require Cst CstText CstEnt.", "From RX.Proofs Require Import CstMain CstTextMain CstEntMain CstEntRejSem CstEntRejTrace CstEntRejMain.", "From RX.Spec Require CstFull CstFullS4 CstFullS6.", "From RX.Proofs Require CstNsView CstFullS6Main CstFullRejSem CstFullRejTrace CstFullRejDoc CstFullRejMain.", "From RX.Spec Require CstFullS11.", "From RX.Proofs Require CstFullS11Main CstFullRejS11Sem CstFullRejS11Doc CstFullRejS11Main CstFullRejS11NsMain NsRejDefs NsRejBuild."],
    groups=[("BudgetMain.v", ["expansion_budget_nodes", "expansion_budget_tight"]), ("BudgetNoEnt.v", ["budget_no_entities"]),
            ("BudgetBytesMain.v", ["expansion_budget_bytes", "expansion_budget_bytes_tight"]),
            ("CstEntRejMain.v", ["limits_decide_ent", "cycle_rejected_ent", "depth_exceeded_rejected_ent", "budget_exceeded_rejected_ent"], "Module E := CstEnt. Module T := CstText."),
+           ("CstFullRejS11Main.v", ["limits_decide_full_s11", "cycle_rejected_full_s11"], "Import RX.Spec.CstFull. Import RX.Spec.CstFullS4. Import RX.Spec.CstFullS6. Import RX.Spec.CstFullS11. Import RX.Proofs.CstNsView. Import RX.Proofs.CstFullS11Main. Import RX.Proofs.CstFullRejSem. Import RX.Proofs.CstFullRejS11Sem. Import RX.Proofs.CstFullRejTrace. Import RX.Proofs.CstFullRejS11Doc. Import RX.Proofs.CstFullRejMain. Import RX.Proofs.CstFullRejS11Main."),
            ("CstFullRejMain.v", ["limits_decide_full_s6", "cycle_rejected_full_s6", "depth_exceeded_rejected_full_s6", "budget_exceeded_rejected_full_s6"], "Import RX.Spec.CstFull. Import RX.Spec.CstFullS4. Import RX.Spec.CstFullS6. Import RX.Proofs.CstNsView. Import RX.Proofs.CstFullS6Main. Import RX.Proofs.CstFullRejSem. Import RX.Proofs.CstFullRejTrace. Import RX.Proofs.CstFullRejDoc. Import RX.Proofs.CstFullRejMain."),
            ("DetectorProofs.v", ["enter_agrees_model", "detector_sound", "detector_complete", "limits_bound_depth", "limits_bound_nested",
                                  "documented_limits", "chain_accepted_iff", "fan_accepted_iff", "flat_accepted"])]),
@@ -163,7 +168,7 @@ TABLE = {
                                "lookup_prefix_xml", "lookup_prefix_first", "attr_eqb_spec"])]),
  "C13": dict(
    intro="C13 -- source ranges are valid and designate the construct they belong to.  For every parsed document\n   (entity-expanded nodes included): every node and attribute range is a valid slice of the input (start <=\n   end <= len, char boundaries), the root range is the whole input, every attribute lies strictly inside its\n   element's range with its qname sub-range inside it; for documents without a DOCTYPE a child's range lies\n   within its parent's and a node starts after its previous sibling ends.  Shape clauses, from the lexer\n   post-conditions: the range of a comment token is exactly '<!--' text '-->', of a PI token '<?' target ...\n   '?>', a start tag runs from '<' to its '>' and the name follows the '<', an end tag from '</' to '>';\n   text / CDATA ranges are the token's source.  Attribute sub-ranges (below the documented saturation limits):\n   the qname sub-range ends where the local name ends, the value sub-range is delimited by the same quote on\n   both sides, ends one byte before the attribute's end, equals a borrowed value's slice, and only whitespace and\n   one '=' separate it from the qname.  Shift: prepending whitespace to an input that starts with neither a BOM nor\n   an XML declaration yields the same document with every non-root range moved by exactly that length.\n   Whole documents on the fragment of Spec/Cst.v: the range of every node is exactly the span of its construct in\n   the rendering (spans c, CstRangeDefs.v: an element from its '<' to the '>' of its end or empty-element tag), the\n   root range is the whole input, attribute range / qname / value sub-ranges are exactly the written name-to-quote,\n   name and between-the-quotes spans (attr_spans c); hence the slice shapes C13 names (EXTRA below).",
-   imports=["From RX.Proofs Require Import LexerProofs NoPanicTokenizer RangeTokenizer RangeArena RangeInv RangeBuilder RangeParse RangeAttrLocal RangeAttrTok RangeAttrParse RangeShiftBase RangeShiftStream RangeShiftTokenizer RangeShiftBuilder RangeShiftParse RangeShiftFinal CstRangeDefs CstRangeMain CstRangeTDefs CstRangeTMain CstEntDoc CstRangeEDefs CstRangeEMain CstRangeEValid.", "From RX.Spec Require Cst CstText CstEnt CstFull CstFullS5.", "From RX.Proofs Require CstRangeFDefs CstRangeFS2 CstRangeGDefs CstRangeGS3 CstRangeG5Defs CstRangeG5.", "From RX.Spec Require CstFullS4 CstFullS6.", "From RX.Proofs Require CstRangeG6Defs CstRangeG6 ErrShiftSubFinal ErrShiftProlog.", "From RX.Spec Require CstFullS10.", "From RX.Proofs Require CstRangeG10."],
+   imports=["From RX.Proofs Require Import LexerProofs NoPanicTokenizer RangeTokenizer RangeArena RangeInv RangeBuilder RangeParse RangeAttrLocal RangeAttrTok RangeAttrParse RangeShiftBase RangeShiftStream RangeShiftTokenizer RangeShiftBuilder RangeShiftParse RangeShiftFinal CstRangeDefs CstRangeMain CstRangeTDefs CstRangeTMain CstEntDoc CstRangeEDefs CstRangeEMain CstRangeEValid.", "From RX.Spec Require Cst CstText CstEnt CstFull CstFullS5.", "From RX.Proofs Require CstRangeFDefs CstRangeFS2 CstRangeGDefs CstRangeGS3 CstRangeG5Defs CstRangeG5.", "From RX.Spec Require CstFullS4 CstFullS6.", "From RX.Proofs Require CstRangeG6Defs CstRangeG6 ErrShiftSubFinal ErrShiftProlog.", "From RX.Spec Require CstFullS10 CstFullS11.", "From RX.Proofs Require CstRangeG10 CstRangeG11."],
    groups=[("RangeParse.v", ["parse_ranges_valid", "parse_attr_ranges_inside", "parse_ranges_nest", "parse_ranges_siblings"]),
            ("RangeAttrParse.v", ["parse_attr_subranges"]), ("RangeShiftFinal.v", ["parse_shift_whitespace_partial"]),
            ("CstRangeMain.v", ["parse_render_ranges", "parse_render_attr_ranges"]),
@@ -172,6 +177,7 @@ TABLE = {
            ("CstRangeFS2.v", ["parse_render_ranges_f2", "parse_render_attr_ranges_f2"], "Import RX.Spec.CstFull. Import RX.Proofs.CstRangeFDefs. Import RX.Proofs.CstRangeFS2."),
            ("CstRangeGS3.v", ["parse_render_ranges_f3"], "Import RX.Spec.CstFull. Import RX.Proofs.CstRangeFDefs. Import RX.Proofs.CstRangeGDefs. Import RX.Proofs.CstRangeGS3."),
            ("CstRangeG5.v", ["parse_render_ranges_f5", "parse_render_attr_ranges_f5"], "Import RX.Spec.CstFull. Import RX.Spec.CstFullS5. Import RX.Proofs.CstRangeFDefs. Import RX.Proofs.CstRangeFS2. Import RX.Proofs.CstRangeG5Defs. Import RX.Proofs.CstRangeG5."),
+           ("CstRangeG11.v", ["parse_render_ranges_f11", "parse_render_attr_ranges_f11"], "Import RX.Spec.CstFull. Import RX.Spec.CstFullS4. Import RX.Spec.CstFullS6. Import RX.Spec.CstFullS11. Import RX.Proofs.CstRangeFDefs. Import RX.Proofs.CstRangeFS2. Import RX.Proofs.CstRangeG6Defs. Import RX.Proofs.CstRangeG11."),
            ("CstRangeG10.v", ["parse_render_ranges_f10", "parse_render_attr_ranges_f10"], "Import RX.Spec.CstFull. Import RX.Spec.CstFullS4. Import RX.Spec.CstFullS6. Import RX.Spec.CstFullS10. Import RX.Proofs.CstRangeFDefs. Import RX.Proofs.CstRangeFS2. Import RX.Proofs.CstRangeG6Defs. Import RX.Proofs.CstRangeG10."),
            ("CstRangeG6.v", ["parse_render_ranges_f6", "parse_render_attr_ranges_f6"], "Import RX.Spec.CstFull. Import RX.Spec.CstFullS4. Import RX.Spec.CstFullS6. Import RX.Proofs.CstRangeFDefs. Import RX.Proofs.CstRangeFS2. Import RX.Proofs.CstRangeG6Defs. Import RX.Proofs.CstRangeG6."),
            ("ErrShiftProlog.v", ["ranges_move_with_prolog_whitespace"], "Import RX.Proofs.ErrShiftSubFinal. Import RX.Proofs.ErrShiftProlog."),
@@ -206,7 +212,7 @@ TABLE = {
            ("CstFullS5.v", ["dtd_refused_full", "no_dtd_any_option"], "Import RX.Spec.CstFull. Import RX.Spec.CstFullS5. Import RX.Proofs.CstNsView. Import RX.Proofs.CstFullMain. Import RX.Proofs.CstFullS5.")]),
  "C18": dict(
    intro="C18 -- borrowed strings are slices of the input; undecoded content is not copied.  In the model a\n   borrowed string is an offset pair; every such pair in a parsed document is a valid slice of the input\n   (start <= end <= len, both on char boundaries), the only 'static strings are those of the xml\n   namespace, and the fast paths keep text / CDATA / attribute values borrowed.  Whole documents on the fragment of\n   Spec/Cst.v (parse_render_storage): every Text node and every attribute value is stored Borrowed with exactly the\n   span where it is written, and every name (tag, attribute, PI target, PI value, comment text) is the slice of its\n   written occurrence (shapes c / attr_spans c, CstRangeDefs.v).  On the fragment of Spec/CstText.v\n   (parse_render_storage_t; tshapes / tattr_spans in CstRangeTDefs.v): a run that is ONE literal without CR is Borrowed\n   with exactly its span; a run that is ONE CDATA section without CR is Borrowed with the span of its content; every other\n   run is Owned with the decoded text; an attribute value that is empty or one literal without TAB / LF / CR is Borrowed\n   with the span between the quotes, every other is Owned with the normalised value -- undecoded content is never copied.",
-   imports=["From RX.Spec Require Cst.", "From RX.Spec Require CstText CstEnt.", "From RX.Proofs Require Import BorrowLocal BorrowTokenizer BorrowParse TextMerge CstRangeDefs CstRangeMain CstRangeTDefs CstRangeTMain CstEntDoc CstRangeEDefs CstRangeEMain.", "From RX.Spec Require CstFull CstFullS5.", "From RX.Proofs Require CstRangeFDefs CstRangeFS2 CstRangeG5Defs CstRangeG5.", "From RX.Spec Require CstFullS4 CstFullS6.", "From RX.Proofs Require CstRangeG6Defs CstRangeG6.", "From RX.Spec Require CstFullS10.", "From RX.Proofs Require CstRangeG10."],
+   imports=["From RX.Spec Require Cst.", "From RX.Spec Require CstText CstEnt.", "From RX.Proofs Require Import BorrowLocal BorrowTokenizer BorrowParse TextMerge CstRangeDefs CstRangeMain CstRangeTDefs CstRangeTMain CstEntDoc CstRangeEDefs CstRangeEMain.", "From RX.Spec Require CstFull CstFullS5.", "From RX.Proofs Require CstRangeFDefs CstRangeFS2 CstRangeG5Defs CstRangeG5.", "From RX.Spec Require CstFullS4 CstFullS6.", "From RX.Proofs Require CstRangeG6Defs CstRangeG6.", "From RX.Spec Require CstFullS10 CstFullS11.", "From RX.Proofs Require CstRangeG10 CstRangeG11."],
    groups=[("BorrowLocal.v", ["mk_slice_valid", "fast_path_text", "fast_path_attr", "fast_path_cdata"]),
            ("BorrowTokenizer.v", ["tokenizer_tokens_ok", "tokenizer_content_tokens_ok"], "Local Notation token := Tokenizer.token."),
            ("BorrowParse.v", ["token_preserves_borrows", "parse_borrows_ok", "static_only_xml"]),
@@ -216,6 +222,7 @@ TABLE = {
            ("CstRangeEMain.v", ["parse_render_storage_e"], "Module E := CstEnt."),
            ("CstRangeFS2.v", ["parse_render_storage_f2"], "Import RX.Spec.CstFull. Import RX.Proofs.CstRangeFDefs. Import RX.Proofs.CstRangeFS2."),
            ("CstRangeG5.v", ["parse_render_storage_f5"], "Import RX.Spec.CstFull. Import RX.Spec.CstFullS5. Import RX.Proofs.CstRangeFDefs. Import RX.Proofs.CstRangeFS2. Import RX.Proofs.CstRangeG5Defs. Import RX.Proofs.CstRangeG5."),
+           ("CstRangeG11.v", ["parse_render_storage_f11"], "Import RX.Spec.CstFull. Import RX.Spec.CstFullS4. Import RX.Spec.CstFullS6. Import RX.Spec.CstFullS11. Import RX.Proofs.CstRangeFDefs. Import RX.Proofs.CstRangeFS2. Import RX.Proofs.CstRangeG6Defs. Import RX.Proofs.CstRangeG11."),
            ("CstRangeG10.v", ["parse_render_storage_f10"], "Import RX.Spec.CstFull. Import RX.Spec.CstFullS4. Import RX.Spec.CstFullS6. Import RX.Spec.CstFullS10. Import RX.Proofs.CstRangeFDefs. Import RX.Proofs.CstRangeFS2. Import RX.Proofs.CstRangeG6Defs. Import RX.Proofs.CstRangeG10."),
            ("CstRangeG6.v", ["parse_render_storage_f6"], "Import RX.Spec.CstFull. Import RX.Spec.CstFullS4. Import RX.Spec.CstFullS6. Import RX.Proofs.CstRangeFDefs. Import RX.Proofs.CstRangeFS2. Import RX.Proofs.CstRangeG6Defs. Import RX.Proofs.CstRangeG6.")]),
  "C19": dict(
